@@ -77,6 +77,10 @@ static Verdict runCase(const EncCase& c, Info& info)
             afterLast = true;
     if (!c.prior.empty())
         info.tag("encoder_had_earlier_calls");
+    if (c.bulkFrames)
+        info.tag("encoder_emitted_about_65536_frames_before");
+    if (c.flagToggle & 0x33)
+        info.tag("packet_objects_sent_before_with_single_flag_bits_inverted");
     {
         static const char* ov[] = {"overload_packet_iterators", "overload_shared_ptr_iterators", "overload_forward_list_iterators", "overload_single_packet"};
         info.tag(ov[(c.overload % 4 == 3 && c.packets.size() != 1) ? 0 : c.overload % 4]);
